@@ -96,6 +96,14 @@ def run(run, binfo):
         for text in ('http://h/x', 'role:nobody or https://h/x', 'not http://h/x'):
             cases.append(base_case(rules={'pol': text}, rule=('name', 'pol'), creds={'roles': []}, http=fault))
             wants.append(want)
+    # ... also when the remote check is reached through a reference: a fault is not a denial
+    for fault, want in [(('timeout',), ('exc', 'RuntimeError')), (('fault', 'ConnectionError'), ('exc', 'ConnectionError')),
+                        (('fault', 'Fault'), ('exc', 'Fault'))]:
+        for name in ('alias', 'nalias', 'deep'):
+            cases.append(base_case(rules={'pol': 'https://h/x', 'alias': 'rule:pol', 'nalias': 'not rule:pol',
+                                          'deep': 'role:nobody or (rule:alias and role:y)'},
+                                   rule=('name', name), creds={'roles': ['y']}, http=fault))
+            wants.append(want)
     # missing URL key: KeyError escapes when enforced directly, denies through an alias
     cases.append(base_case(rules={'pol': 'http://h/%(missing)s'}, rule=('name', 'pol'), creds={}))
     wants.append(('exc', 'KeyError'))
